@@ -444,6 +444,12 @@ func init() {
 			c.Gauge("universe_size", int64(len(U)))
 			pick := func() run.TV { return run.TV{V: U[r.IntN(len(U))]} }
 			kC03Sync.Do(c, c03Sync{"builtin.go"})
+			for _, t := range c03HugeCases() {
+				kC03Huge.Do(c, t)
+			}
+			for _, t := range c03CompanyCases() {
+				kC03Company.Do(c, t)
+			}
 			for _, t := range c16NotOneJSON {
 				kC03FromJSON.Do(c, c03FromJSON{Text: t})
 				kC03FromJSON.Do(c, c03FromJSON{Text: " " + t + "\n"})
